@@ -151,6 +151,18 @@ CHECKS["C14"] = dict(
          "at construction while loads skip them (proved about the model: env_ignored_by_lists); the challenge-with-default case was repaired.",
     technique="Lean 4 proof (closed-form naming by induction over the schema chain; case analysis of __setdefault__/load_tree) + model/implementation correspondence",
     design="6 C14")
+CHECKS["C16"] = dict(
+    text="Lean 4 theorems: a path is enumerated with field f iff component-wise lookup on the schema yields f (mutual structural "
+         "recursion, keys distinct per level); the dotted-string walk on the schema and on a configuration equals component-wise "
+         "lookup / chained access, membership = that access finds something; the generated parser has one option per scalar field and "
+         "two switches per boolean with dest = path; an empty command line overrides nothing; an override leaves every top-level key "
+         "untouched that is not the first component of a supplied, non-ignored option (fold induction over the namespace, using the C01 "
+         "frame theorem). Correspondence: real get_all_fields / schema[path] / item_ref_path / membership / chained access, the real "
+         "generated ArgumentParser's actions, and random command lines x ignore lists through the real parser and cmdline_args_override.",
+    note=CFG_NOTE + " argparse itself (exact long options, --opt=value, switches) is CPython's; abbreviations and option-like values are "
+         "outside the model. Known finding F17: enumeration on a nested (keyed) schema yields paths that do not resolve on it.",
+    technique="Lean 4 proof (mutual structural recursion over schemas; fold induction) + model/implementation correspondence",
+    design="6 C16")
 PENDING = ["C01", "C02", "C03", "C04", "C05", "C06", "C07", "C08", "C09", "C10", "C11", "C12", "C13", "C14", "C15", "C16",
            "C17", "C19", "C20"]
 
